@@ -18,12 +18,12 @@ import time as _time
 from concurrent.futures import ThreadPoolExecutor
 
 from harness.common import coq
-from harness.translate import restoreshape
+from harness.translate import backupendpoints, restoreshape
 
 ID = 'C20'
 PROPS = 'theories/Props/C20.v'
 MODEL_TARGETS = ['theories/C20/Run.vo']
-TRANSLATORS = [restoreshape.translate]
+TRANSLATORS = [restoreshape.translate, backupendpoints.translate]
 TIE = ('correspondence by vm_compute on generated pairs of configurations (error, flags and the GET documents after the '
        'restore, for /ports, /device, /devices, /peripherals)')
 ALLOWED_AXIOMS = []
@@ -809,7 +809,7 @@ def c_slaves_case(I, job, res):
         coq.lst(sorted(sim.items()), lambda kv: '(%s, %s)' % (I.s(kv[0]), c_jv(I, canon(kv[1])))),
         coq.lst(canon_list(res['sent']['devices']), lambda e: c_entry(I, e)), coq.boolean(mutated), c_index_err(I, res['put']['devices']),
         coq.boolean(res['flags']['devices'][0]), coq.boolean(res['flags']['devices'][1]),
-        coq.lst(canon_list(res['mid_devices']), lambda e: c_entry(I, e)))
+        coq.lst(canon_list(res['after_put']['devices']), lambda e: c_entry(I, e)))
 
 
 def c_periph_case(I, job, res):
@@ -817,7 +817,7 @@ def c_periph_case(I, job, res):
     return '{| rc_known := [%s]; rc_current := %s; rc_sent := %s; rc_mutated := %s; rc_err := %s; rc_after := %s |}' % (
         I.s(MOCK_DRIVER), coq.lst(canon(res['tgt']['peripherals']), lambda e: c_entry(I, e)),
         coq.lst(canon(res['sent']['peripherals']), lambda e: c_entry(I, e)), coq.boolean(mutated),
-        c_index_err(I, res['put']['peripherals']), coq.lst(canon(res['mid_peripherals']), lambda e: c_entry(I, e)))
+        c_index_err(I, res['put']['peripherals']), coq.lst(canon(res['after_put']['peripherals']), lambda e: c_entry(I, e)))
 
 
 def c_case(I, job, res, notes):
